@@ -233,15 +233,37 @@ def r13d(chk, rid='R13.d'):
         wrong = [r for r in rejects if rx.accepts(nfa, r)]
         chk.ob(rid, PROFILES, 'Profiles._MACROS', f'{{{mac}}} accepts a number with each of {units.split()} and 0', not bad and not wrong and rx.accepts(nfa, '0'),
                f'rejects units {bad}; accepts {wrong}')
-    # unknown names
-    fn = chk.repo.fn(PROFILES, 'Profiles.validateWithProfile')
-    first = [s for s in fn.body if not (isinstance(s, ast.Expr) and isinstance(s.value, ast.Constant))][0]
-    ok = isinstance(first, ast.If) and text(first.test) == 'name not in self.knownNames' and isinstance(first.body[0], ast.Return) and text(first.body[0].value).startswith('(False, False')
-    chk.ob(rid, PROFILES, 'Profiles.validateWithProfile', 'unknown property names are rejected before any profile is consulted', ok, text(first)[:80])
-    # validate(): a value is valid iff some profile accepts it - returns True only from a truthy match
-    fn = chk.repo.fn(PROFILES, 'Profiles.validate')
-    rets = [text(r.value) for r in ast.walk(fn) if isinstance(r, ast.Return)]
-    chk.ob(rid, PROFILES, 'Profiles.validate', 'returns the match result or False', set(rets) <= {'r', 'False'}, str(rets))
+    # validate() and validateWithProfile() over a three-profile model registry, by evaluation
+    import itertools
+
+    from sa.absint import Evaluator, Raised, Record, _Raise
+
+    pm = chk.repo.mod(PROFILES)
+    vfn, wfn = pm.get('Profiles.validate'), pm.get('Profiles.validateWithProfile')
+    names = ['A', 'B', 'C']
+
+    def validator(kind):
+        def v(value):
+            if kind == 'raise':
+                raise _Raise('Exception')
+            return 'match object' if kind == 'accept' else None
+        return v
+
+    n = 0
+    bad = []
+    for kinds in itertools.product(('absent', 'accept', 'reject', 'raise'), repeat=3):
+        beh = dict(zip(names, kinds))
+        props = {p: ({'x': validator(beh[p])} if beh[p] != 'absent' else {'other': validator('reject')}) for p in names}
+        me = Record(_profileNames=list(names), _profilesProperties=props, _defaultProfiles=None, _knownNames=[k for p in names for k in props[p]], _log=Record(error=lambda *a, **k: None))
+        got = Evaluator(vfn, intrinsics={'self._log.error': lambda *a, **k: None}, module=pm, cls='Profiles').run(self=me, name='x', value='v')
+        n += 1
+        want = any(k == 'accept' for k in kinds)
+        if isinstance(got, Raised) or bool(got) != want or not isinstance(got, bool):
+            bad.append(f'registry {beh}: validate gives {got!r}, prescribed {want}')
+        unknown = Evaluator(wfn, intrinsics={'self._log.error': lambda *a, **k: None}, module=pm, cls='Profiles').run(self=me, name='nosuch', value='v')
+        if isinstance(unknown, Raised) or tuple(unknown)[:2] != (False, False) or list(tuple(unknown)[2]):
+            bad.append(f'registry {beh}: an unknown property name gives {unknown!r}')
+    chk.ob(rid, PROFILES, 'Profiles.validate', f'all {n} model registries: valid iff some registered profile that defines the property accepts the value (a failing validator counts as rejecting); unknown names are rejected (by evaluation)', not bad, ' | '.join(bad[:2]))
 
 
 def r13e(chk, rid='R13.e'):
